@@ -34,6 +34,7 @@ MIN_EVALS = {'quick': {'lin.series': 1500, 'scale.spectra': 450, 'causal.prefix-
                           'refine.spectra-never-decrease': 120000, 'objlin.spectra-scale': 750,
                           'objrefine.spectra-never-decrease': 18000}}
 K3 = 'C02/sa-pga-substitution'
+NO_TESTSUITE = True     # relations between executions: single calls made by the repository's tests carry no verdict
 EPS = float(np.finfo(float).eps)
 CTX = None
 
